@@ -957,7 +957,9 @@ func (t *twins) genProgram(p *c19Pool, branch string) (string, bool) {
 	case 1:
 		return fmt.Sprintf("%s | %s | sort u", from, GenPred(wl, &p.Spec, p.KeyRange, t.nextU, 1)), true
 	case 2:
-		return from + " | count() by d | sort d", false // 1 and 1. tie
+		// (two aggregates: "count() by <field>" alone is the shape the planner
+		// hands to the vector runtime, whose known findings are C09's)
+		return from + " | count(), max(u) by d | sort d", false // 1 and 1. tie
 	case 3:
 		return from + " | cut u, d | sort -r u | head 7", true
 	default:
@@ -1026,11 +1028,20 @@ func (t *twins) opQuery(p *c19Pool, branch string, faulty bool) *kernel.Violatio
 	rr, errB := t.rawQuery(src, format, ctrl, -1)
 	op.ErrB = normErr(errB)
 	t.record(op)
-	if (errA == nil) != (errB == nil) {
-		return kernel.Violatef("C19:verdict-differs:query", "query %q (%s response): direct access says %q, the service says %q", src, format, normErr(errA), normErr(errB))
-	}
 	if errA != nil {
+		// The service may tell its client in any of its ways: a non-2xx
+		// status, a broken body, an in-band error frame, the status endpoint.
+		told := normErr(errB)
+		if told == "" && rr != nil {
+			told = t.serviceError(rr, format)
+		}
+		if told == "" {
+			return kernel.Violatef("C19:verdict-differs:query", "query %q (%s response): direct access says %q, the service's client is told nothing", src, format, normErr(errA))
+		}
 		return nil
+	}
+	if errB != nil {
+		return kernel.Violatef("C19:verdict-differs:query", "query %q (%s response): direct access succeeds, the service says %q", src, format, normErr(errB))
 	}
 	var want []byte
 	if format != "zng" {
@@ -1099,6 +1110,32 @@ func (t *twins) opQuery(p *c19Pool, branch string, faulty bool) *kernel.Violatio
 		return compareLines("C19:result-differs:query:zjson", src, false, zsonLines(valsA), got)
 	}
 	return compareLines("C19:result-differs:query:"+format, src, false, strings.Split(string(want), "\n"), strings.Split(string(rr.body), "\n"))
+}
+
+// serviceError says how, if at all, a completed raw query told its client
+// that it failed.
+func (t *twins) serviceError(rr *rawResult, format string) string {
+	switch {
+	case rr.status/100 != 2:
+		return fmt.Sprintf("status %d", rr.status)
+	case rr.readErr != nil:
+		return "body: " + rr.readErr.Error()
+	case rr.lateErr != "":
+		return "status endpoint: " + rr.lateErr
+	case format == "zng":
+		if sc, err := queryio.NewScanner(t.ctx, io.NopCloser(bytes.NewReader(rr.body))); err == nil {
+			for {
+				b, err := sc.Pull(false)
+				if err != nil {
+					return "in-band: " + err.Error()
+				}
+				if b == nil {
+					break
+				}
+			}
+		}
+	}
+	return ""
 }
 
 func clipStr(s string, n int) string {
@@ -1177,7 +1214,7 @@ func (t *twins) opDamagedQuery(p *c19Pool, branch, format string) *kernel.Violat
 	t.desc.Faults++
 	src := fmt.Sprintf("from %s@%s", p.Name, branch)
 	op := c19Op{Kind: "query-over-damaged-object", Arg: fmt.Sprintf("%q as %s, object %d %s", src, format, k, map[bool]string{true: "truncated", false: "lost"}[truncate])}
-	_, errA := valuesOf(t.A, t.ctx, src)
+	valsA, errA := valuesOf(t.A, t.ctx, src)
 	op.ErrA = normErr(errA)
 	var told string
 	if format == "iface" {
@@ -1187,25 +1224,16 @@ func (t *twins) opDamagedQuery(p *c19Pool, branch, format string) *kernel.Violat
 		ctrl := fl.Chance(1, 2)
 		op.Arg += fmt.Sprintf(" ctrl=%v", ctrl)
 		rr, errB := t.rawQuery(src, format, ctrl, -1)
-		switch {
-		case errB != nil:
+		if errB != nil {
 			told = normErr(errB)
-		case rr.readErr != nil:
-			told = "body: " + rr.readErr.Error()
-		case rr.lateErr != "":
-			told = "status endpoint: " + rr.lateErr
-		case format == "zng":
-			if sc, err := queryio.NewScanner(t.ctx, io.NopCloser(bytes.NewReader(rr.body))); err == nil {
-				for {
-					b, err := sc.Pull(false)
-					if err != nil {
-						told = "in-band: " + err.Error()
-						break
-					}
-					if b == nil {
-						break
-					}
-				}
+		} else {
+			told = t.serviceError(rr, format)
+		}
+		if errA == nil && format != "zng" {
+			// What the direct side would have to write must be writable in
+			// this format too (CSV over several record types is not).
+			if _, ferr := formatLike(format, valsA); ferr != nil {
+				errA = ferr
 			}
 		}
 	}
